@@ -83,6 +83,24 @@ def cli_model(ctx: Ctx):  # type: ignore[no-untyped-def]
             if d:
                 dests[d] = c
         subs[fn.name] = {"fn": fn, "handler": handler, "dests": dests}
+    # options a sub-parser inherits: `add_parser(..., parents=[common])` copies every option declared on `common`
+    other_parsers: Dict[str, Dict[str, ast.Call]] = {}
+    for c in calls(setup.node, "add_argument"):
+        owner = path_of(c.func.value)  # type: ignore[union-attr]
+        if owner and owner != "parser":
+            d = _dest(c)
+            if d:
+                other_parsers.setdefault(owner, {})[d] = c
+    for c in calls(setup.node):
+        if callee_name(c) in subs and c.args and isinstance(c.args[0], ast.Call) and callee_name(c.args[0]) == "add_parser":
+            parents = kw(c.args[0], "parents")
+            if parents is None:
+                continue
+            if not isinstance(parents, (ast.List, ast.Tuple)) or not all(isinstance(x, ast.Name) for x in parents.elts):
+                raise AnalysisError(f"cli.setup_parser: the parents of the `{callee_name(c)}` sub-parser are not a list of local parsers")
+            for x in parents.elts:
+                for d, decl in other_parsers.get(x.id, {}).items():  # type: ignore[attr-defined]
+                    subs[callee_name(c)]["dests"].setdefault(d, decl)  # type: ignore[index,union-attr,arg-type]
     if len(subs) < 3:
         raise AnalysisError(f"expected three sub-commands, found {sorted(subs)}")
     return mod, global_dests, subs
@@ -389,4 +407,64 @@ def r18_6(ctx: Ctx) -> RuleResult:
     return rr
 
 
-RULES = [r18_1, r18_2, r18_3, r18_4, r18_5, r18_6]
+def r18_7(ctx: Ctx) -> RuleResult:
+    """A file option is opened the way its content is used.  What the command itself reads as text and hands on as a
+    query or pointer (`args.X.read()`) is opened in text mode - a bytes object is no query; what is handed to the
+    library (or to the JSON decoder) as a document or patch is opened in binary mode, because that is how the library
+    decodes a file: UTF-8 with or without a byte order mark, UTF-16, UTF-32 (a text-mode file pins one encoding and
+    the same file is then accepted by the library call and refused by the command); what the result is written to is
+    opened for writing text."""
+    from sa.flow import parent_map
+
+    rr = RuleResult("R18.7", "file options are opened in the mode their use needs", floor=9)
+    mod, gd, subs = cli_model(ctx)
+    n = 0
+    for name, s in sorted(subs.items()):
+        handler: FuncInfo = s["handler"]  # type: ignore[assignment]
+        dests: Dict[str, ast.Call] = s["dests"]  # type: ignore[assignment]
+        parents = parent_map(handler.node)
+        for d, decl in sorted(dests.items()):
+            t = kw(decl, "type")
+            if not (isinstance(t, ast.Call) and callee_name(t) == "FileType"):
+                continue
+            m = kw(t, "mode") or (t.args[0] if t.args else None)
+            mode = m.value if isinstance(m, ast.Constant) and isinstance(m.value, str) else ("r" if m is None else None)
+            if mode is None:
+                raise AnalysisError(f"R18.7: the mode of the file option `{d}` of `{name}` is not a constant")
+            uses = [r for r in _arg_reads(handler) if r.attr == d]
+            roles: Set[str] = set()
+            for u in uses:
+                par = parents.get(id(u))
+                if isinstance(par, ast.Attribute) and par.attr == "read":
+                    g = parents.get(id(par))
+                    gg = parents.get(id(g)) if g is not None else None
+                    # json.loads(args.X.read()) is the decoder's business, anything else is text the command uses itself
+                    roles.add("decoded" if isinstance(gg, ast.Call) and callee_name(gg) in ("loads", "load") else "text")
+                elif isinstance(par, ast.Call) and callee_name(par) in ("dump", "dumps") and par.args and par.args[0] is not u:
+                    roles.add("output")
+                elif isinstance(par, ast.Attribute) and par.attr in ("write", "writelines"):
+                    roles.add("output")
+                elif isinstance(par, (ast.Call, ast.keyword)):
+                    roles.add("decoded")
+            if not roles:
+                continue
+            n += 1
+            problems = []
+            if "text" in roles and ("b" in mode or "r" not in mode):
+                problems.append(f"its content is read and used as text by the command, but it is opened with mode {mode!r}: the query or pointer arrives as bytes "
+                                "(an uncaught TypeError, a traceback instead of a result)")
+            if "decoded" in roles and "b" not in mode:
+                problems.append(f"it is handed to the library / the JSON decoder as a document, but opened in text mode {mode!r}: a file in another encoding the "
+                                "library accepts (UTF-8 with a byte order mark, UTF-16, UTF-32) is refused by the command")
+            if "output" in roles and ("w" not in mode or "b" in mode):
+                problems.append(f"the result is written to it as JSON text, but it is opened with mode {mode!r}")
+            if problems:
+                rr.bad(s["fn"], decl, f"`{name}`: file option `{d}`: " + "; ".join(problems), construct=f"{name}: --{d.replace('_', '-')} opened {mode!r}, used as {sorted(roles)}")  # type: ignore[arg-type]
+            else:
+                rr.ok(s["fn"].loc(decl), f"{name}: `{d}` opened {mode!r}, used as {sorted(roles)}")  # type: ignore[union-attr]
+    if n == 0:
+        raise AnalysisError("R18.7: no file option is used by a handler")
+    return rr
+
+
+RULES = [r18_1, r18_2, r18_3, r18_4, r18_5, r18_6, r18_7]
